@@ -633,5 +633,6 @@ func getAllContract(p *Prog, r *Report, getter, region, zero string) {
 			okLoop = true
 		}
 	}
-	r.check(okLoop && len(next) == 1, "getter-contract", "getter-contract/"+getter+"/loop", c.pos(), "for ; it.Valid(); it.Next()", "iteration loop shape changed")
+	early := c.earlyLoopExits()
+	r.check(okLoop && len(next) == 1 && len(early) == 0, "getter-contract", "getter-contract/"+getter+"/loop", c.pos(), "for ; it.Valid(); it.Next(), left only when the iterator is exhausted", fmt.Sprintf("iteration loop shape changed (early exits: %v)", early))
 }
